@@ -271,6 +271,10 @@ func (m *MultiReaderAt) ReadAt(p []byte, off int64) (totalN int, err error) {
 		if err != nil {
 			if err == io.EOF && i == len(m.readers)-1 {
 				reachedEnd = true
+			} else if err == io.EOF && n < toRead {
+				// a piece that is not the last one ended before its declared size
+				// (truncated piece): do not return a short read with a nil error.
+				return totalN, io.ErrUnexpectedEOF
 			} else if err != io.EOF {
 				return totalN, err
 			}
